@@ -6,6 +6,8 @@
 PID=$1; M=$2; shift 2; CHECKS=${@:-$PID}
 SRC=/tmp/mut/$PID/$M; WT=/tmp/wt/ev-$PID-$M; OUT=/tmp/mut/results/$PID-$M.txt
 NTEST=${NTEST:-8}
+KEEP=""
+if [ -n "$SKIPTESTS" ] && [ -f $OUT ]; then KEEP=$(grep -E "^(tests_exit|retest_exit)=" $OUT | sed 's/^tests_exit=\([0-9]*\) \(.*\)$/tests_exit=\1 \2/' ); fi
 : > $OUT
 git -C /repo worktree remove --force $WT >/dev/null 2>&1; rm -rf $WT
 git -C /repo worktree add -q --detach $WT HEAD || { echo "worktree failed" >> $OUT; exit 1; }
@@ -21,5 +23,6 @@ fi
 for c in $CHECKS; do
   ( cd /verif && VERIF_EVIDENCE_DIR=/tmp/mut/results/ev-$PID-$M VERIF_REPLAY_DIR=/tmp/mut/results/rp-$PID-$M VERIF_REPO=$WT timeout 3000 ./check $c --tier quick > /tmp/mut/results/$PID-$M.check_$c.log 2>&1; echo "check_$c exit=$? $(grep -c '^VIOLATION' /tmp/mut/results/$PID-$M.check_$c.log) violation lines; $(grep -m1 '^VIOLATION' /tmp/mut/results/$PID-$M.check_$c.log)" >> $OUT )
 done
+[ -n "$KEEP" ] && echo "$KEEP" >> $OUT
 cd /; git -C /repo worktree remove --force $WT; rm -rf $WT
 cat $OUT
